@@ -698,7 +698,50 @@ func (fr *Frame) applyContract(st *State, ctr *Contract, name string, sig *types
 			env.assign(cl.Exprs[0], env.eval(cl.Expr))
 		}
 	}
-	outs = append(outs, Outcome{St: st, Res: res})
+	// invokes clauses: the callee calls back into a function value of the caller
+	finals := []*State{st}
+	for _, cl := range ctr.Clauses {
+		if cl.Kind != "invokes" {
+			continue
+		}
+		fv, ok := vars[cl.Var].(Func)
+		if !ok || fv.Fn == nil {
+			continue // nil or symbolic function value: nothing of the caller's runs
+		}
+		var next []*State
+		for _, s0 := range finals {
+			e2 := &Env{fr: fr, st: s0, old: old, vars: vars, pkg: pkg, noLocals: true}
+			cond := e2.evalBool(cl.Expr)
+			sNo := s0.clone()
+			sNo.assume(Not(cond))
+			if !sNo.dead {
+				next = append(next, sNo)
+			}
+			s0.assume(cond)
+			if s0.dead {
+				continue
+			}
+			var cargs []Value
+			ps := fv.Fn.Signature.Params()
+			for i := 0; i < ps.Len(); i++ {
+				cargs = append(cargs, s0.freshValue(ps.At(i).Type(), "invoke."+ps.At(i).Name()))
+			}
+			for _, o := range fr.callFn(s0, fv.Fn, append(append([]Value{}, fv.Bind...), cargs...), 0) {
+				if o.St.dead {
+					continue
+				}
+				if o.Panic {
+					outs = append(outs, o)
+					continue
+				}
+				next = append(next, o.St)
+			}
+		}
+		finals = next
+	}
+	for _, s0 := range finals {
+		outs = append(outs, Outcome{St: s0, Res: res})
+	}
 	return outs
 }
 
